@@ -18,7 +18,10 @@
 From Coq Require Import ZArith NArith List Bool Arith.
 From CL Require Import Base.Sx Base.Res Base.Str Model.AddRemove Model.Channels
                        Proofs.ChannelsProofs Proofs.ChannelsSpec Proofs.ChannelsIdentical
-                       Proofs.ReparsePartial.
+                       Proofs.ReparsePartial
+                       Model.Entry Model.Parse Model.ParseFormats Proofs.C02Blocks
+                       Proofs.MergeShape Proofs.PropsShape Proofs.MergeReparse15 Proofs.PropsView.
+From Coq Require Import Lia.
 Import ListNotations.
 Local Open Scope nat_scope.
 
@@ -151,3 +154,96 @@ Example C15_example_section_named_like_key :
   merge_channels (s [102;46;105;110;105]) [ex_ini; ex_ini_old] =
     Ok (s [91;97;93;10; 97;61;49;10; 98;61;50;10]).
 Proof. split; [split; nodup|]. split; vm_compute; reflexivity. Qed.
+
+(* ---- the re-parse clause for .properties, from the block theorem of C02 ----------------------
+   Versions are legal block lists (Proofs/C02Blocks.v: entity lines with attached comments and
+   continuation lines, standalone comments, blank runs); their entries are [centries_of bs]
+   (kind, key / comment value, Entity.all text, raw value — what walk() yields for
+   [file_text bs], C02 blocks_properties).  [version_ok m bs]: the blocks are legal, no
+   attached comment contains "License", keys are distinct, every entity / standalone comment
+   is directly followed by a whitespace entry ([nf m]: the version is newline-terminated), and
+   every whitespace entry starts with a newline and, from length m on, has a second newline
+   ([wsok m]; m = the least length of the whitespace after a standalone comment).  The last
+   premise excludes the listed finding merge-ws-fold-loses-blank-line: merge_two.prune keeps
+   the LONGER whitespace, which must then still end a standalone comment; it is needed
+   (C15_reparse_ws_fold_refuted).
+   Then the merged text re-parses (walk_properties) without junk; its entities are, with key
+   and raw value, exactly the keyed entries of the merged entry list [out] — the list
+   C15_keys_once / C15_newest_wins / C15_order speak about — and its standalone comments are
+   exactly the comment entries of [out]. *)
+Theorem C15_reparse_properties : forall m name (bss : list (list block)) txt,
+  Forall (version_ok m) bss ->
+  merge_channels name (map centries_of bss) = Ok txt ->
+  exists out es,
+    merge_entries (map centries_of bss) = Ok out /\ txt = concat (map c_text out) /\
+    walk_properties txt = Ok es /\
+    map (fun e => let r := entity_record txt e in (fst (fst r), snd (fst r)))
+        (filter (is_kind KEntity) es) = krecs out /\
+    map (fun e => span_text txt (e_span e)) (filter (is_kind KComment) es) = ccoms out /\
+    filter (is_kind KJunk) es = [].
+Proof. exact merge_reparse_properties. Qed.
+
+(* the entries [centries_of bs] are what the parser yields for the text of the blocks, seen as
+   the models see entries (kind, key or comment value, Entity.all, raw value) *)
+Theorem C15_parse_view_properties : forall bs, Forall legal_block bs -> adjacent_ok bs ->
+  exists es, walk_properties (file_text bs) = Ok es /\
+             map (centry_view (file_text bs)) es = centries_of bs.
+Proof. exact centries_view. Qed.
+
+(* newer: a = 1 / b = 2      older: a = 0 / # note / <blank> / z = 3 / b = 2 *)
+Definition pe (k v : list nat) : block := BEntity [] (A k) (A [32]) 61%N (A [32]) [] (A v) true.
+Definition rp_new : list block := [pe [97] [49]; pe [98] [50]].
+Definition rp_old : list block :=
+  [pe [97] [48]; BComment [(35%N, A [32; 110; 111; 116; 101])]; BBlank (A [10]); pe [122] [51]; pe [98] [50]].
+
+Ltac wsok_one :=
+  unfold wsok;
+  first [ intros Hw; vm_compute in Hw; discriminate
+        | intros _; eexists; split;
+          [vm_compute; reflexivity
+          |intros Hl; first [vm_compute; reflexivity | exfalso; vm_compute in Hl; lia]] ].
+Ltac nodup_tac := vm_compute; repeat (apply NoDup_cons; [vm_compute; intuition discriminate|]); apply NoDup_nil.
+Ltac version_ok_tac :=
+  split; [repeat constructor|]; split; [repeat constructor|]; split; [split; nodup_tac|];
+  split; [vm_compute; intuition (try discriminate; try lia)|];
+  unfold centries_of; cbn [cents cflush app];
+  repeat (apply Forall_cons; [wsok_one|]); apply Forall_nil.
+
+Example C15_example_version_ok : Forall (version_ok 2) [rp_new; rp_old].
+Proof. constructor; [version_ok_tac|constructor; [version_ok_tac|constructor]]. Qed.
+
+(* the merged text  a = 1 / # note / <blank> / z = 3 / b = 2  and its parse *)
+Example C15_example_reparse :
+  exists txt es, merge_channels (s [102;46;112;114;111;112;101;114;116;105;101;115])
+                                (map centries_of [rp_new; rp_old]) = Ok txt /\
+    txt = A [97;32;61;32;49;10; 35;32;110;111;116;101;10;10; 122;32;61;32;51;10; 98;32;61;32;50;10] /\
+    walk_properties txt = Ok es /\
+    map (fun e => let r := entity_record txt e in (fst (fst r), snd (fst r)))
+        (filter (is_kind KEntity) es) = [(A [97], A [49]); (A [122], A [51]); (A [98], A [50])] /\
+    filter (is_kind KJunk) es = [].
+Proof. eexists. eexists. split; [vm_compute; reflexivity|]. split; [reflexivity|]. split; [vm_compute; reflexivity|]. split; vm_compute; reflexivity. Qed.
+
+(* the premise [wsok] is needed (listed finding merge-ws-fold-loses-blank-line):
+   newer  a = 1 / <3 blanks>b = 2   older  a = 1 / # note / <blank>  — all other premises hold,
+   the kept whitespace "\n   " is longer than the blank line "\n\n": the merged entry list has
+   the standalone comment, the re-parsed text has none (it became b's attached comment) *)
+Definition wf_new : list block := [pe [97] [49]; BBlank (A [32;32;32]); pe [98] [50]].
+Definition wf_old : list block := [pe [97] [49]; BComment [(35%N, A [32; 110; 111; 116; 101])]; BBlank (A [10])].
+Theorem C15_reparse_ws_fold_refuted :
+  exists name txt out es,
+    Forall (fun bs => Forall legal_block bs /\ adjacent_ok bs /\ ukeys (centries_of bs) /\
+                      nf 2 (centries_of bs)) [wf_new; wf_old] /\
+    merge_channels name (map centries_of [wf_new; wf_old]) = Ok txt /\
+    merge_entries (map centries_of [wf_new; wf_old]) = Ok out /\
+    walk_properties txt = Ok es /\
+    ccoms out <> [] /\ filter (is_kind KComment) es = [] /\ filter (is_kind KJunk) es = [].
+Proof.
+  exists (s [102;46;112;114;111;112;101;114;116;105;101;115]). eexists. eexists. eexists.
+  split.
+  { constructor; [|constructor; [|constructor]];
+      (split; [repeat constructor|]); (split; [vm_compute; reflexivity|]);
+      (split; [split; vm_compute; repeat (apply NoDup_cons; [vm_compute; intuition discriminate|]); apply NoDup_nil|]);
+      vm_compute; intuition (try discriminate; try lia). }
+  split; [vm_compute; reflexivity|]. split; [vm_compute; reflexivity|].
+  split; [vm_compute; reflexivity|]. split; [vm_compute; discriminate|]. split; vm_compute; reflexivity.
+Qed.
